@@ -584,6 +584,21 @@ func (e *Exec) onlyFreshWrites(key string, from int) bool {
 	return true
 }
 
+// onlyLoopFreshWrites: all writes logged from position 'from' hit objects allocated after counter value n
+// (i.e. inside the loop body whose dry run started at n).
+func (e *Exec) onlyLoopFreshWrites(key string, from, n int) bool {
+	ws := e.writes[key]
+	if from > len(ws) {
+		from = len(ws)
+	}
+	for _, w := range ws[from:] {
+		if w == "*" || !e.isFreshTerm(w) || invariantTerm(w, n) {
+			return false
+		}
+	}
+	return true
+}
+
 func (e *Exec) allocRef(prefix string) string {
 	r := e.fresh(prefix, SInt)
 	if e.freshRefs == nil {
